@@ -892,3 +892,46 @@ func runHdrPeek(rc *RuleCtx) {
 		}
 	}
 }
+
+// ---------------------------------------------------------------------------------------------
+// BMSETCONST
+// ---------------------------------------------------------------------------------------------
+
+func init() {
+	register(&Rule{
+		Name:     "BMSETCONST",
+		Doc:      "during a conversion the requires-bitmap is a to-do list, not a copy of the IDL: a converter (conv/*, thrift/generic) marks a field with a CONSTANT — OptionalRequireness for `seen, nothing left to do`, RequiredRequireness for `not found here, the fallback over the JSON body must still deliver it` — and never with the field's declared requiredness (`f.Required()`). In handleHttpMappings the fallback mark written as f.Required() leaves an optional or default field that has no HTTP value marked `seen`: with ReadHttpValueFallback the value present in the JSON body is never looked for",
+		Configs:  "NP",
+		Floor:    map[string]int{"N": 5, "P": 5},
+		Controls: 1,
+		Run:      runBMSetConst,
+	})
+}
+
+func runBMSetConst(rc *RuleCtx) {
+	for _, fn := range rc.W.Funcs {
+		if fn.Blocks == nil {
+			continue
+		}
+		rel := pkgRel(fn)
+		if !strings.HasPrefix(rel, "conv/") && rel != "thrift/generic" {
+			continue
+		}
+		for _, b := range fn.Blocks {
+			for _, ins := range b.Instrs {
+				c, ok := ins.(*ssa.Call)
+				if !ok || c.Call.StaticCallee() == nil || c.Call.StaticCallee().Name() != "Set" || c.Call.StaticCallee().Signature.Recv() == nil {
+					continue
+				}
+				if !strings.Contains(c.Call.StaticCallee().Signature.Recv().Type().String(), "RequiresBitmap") {
+					continue
+				}
+				rc.Examined++
+				_, isConst := c.Call.Args[len(c.Call.Args)-1].(*ssa.Const)
+				rc.verdict(isConst, fn, "RequiresBitmap.Set", c.Pos(), map[bool]string{
+					true:  "the field is marked with a constant bookkeeping state",
+					false: "the field is marked with a computed requiredness (the field's own declaration): for an optional / default field the to-do mark becomes `seen` and the step that was to deliver the value later is skipped"}[isConst], true)
+			}
+		}
+	}
+}
